@@ -16,6 +16,13 @@
 // reused (two attributes may hold the same *Token objects), and expressions are
 // copied between attributes by their tokens; the model treats all attributes
 // as independent.
+//
+// Caller-side steps: what the writer was handed (a Tokens value, a label
+// slice, a traversal) belongs to the writer as it was at the time of the call.
+// The caller may afterwards overwrite elements of its own slice or truncate
+// and refill it (operations caller-overwrite / caller-refill), and in the
+// scratch-buffer variant of a history it builds every slice argument in one
+// reused buffer per argument type and scrubs that buffer after each call.
 package main
 
 import (
@@ -34,7 +41,7 @@ type Op struct {
 	T  []int    `json:"t,omitempty"`  // target body: block indices from the root body (empty = root)
 	N  string   `json:"n,omitempty"`  // attribute name (rename: from)
 	N2 string   `json:"n2,omitempty"` // rename: to; copyraw/copyroot: name of the source attribute
-	V  string   `json:"v,omitempty"`  // value id ("1","s","l","t") or raw token id ("x.y","1+2","7","null",`"q"`)
+	V  string   `json:"v,omitempty"`  // value id ("1","s","l","t") or raw token id ("x.y","1+2","7","null",`"q"`); caller-overwrite/-refill: id of the caller's Tokens value
 	Ty string   `json:"ty,omitempty"` // block type
 	L  []string `json:"l,omitempty"`  // block labels
 	I  int      `json:"i,omitempty"`  // index of the targeted block among the blocks of the target body
@@ -47,6 +54,11 @@ type Op struct {
 type Data struct {
 	Init int  `json:"init"` // index into initialFiles
 	Ops  []Op `json:"ops"`
+	// Scratch: the caller builds every slice argument (Tokens, labels,
+	// traversal) in one reused buffer per argument type
+	// (buf = append(buf[:0], ...)) and overwrites the buffer's elements with
+	// placeholders as soon as the call has returned.
+	Scratch bool `json:"scratch,omitempty"`
 }
 
 func (o Op) target() string {
@@ -86,6 +98,8 @@ func (o Op) String() string {
 		return fmt.Sprintf("%s.appblk(%s,%s)", t, o.Ty, ls)
 	case "rmblk":
 		return fmt.Sprintf("%s.rmblk(#%d)", t, o.I)
+	case "caller-overwrite", "caller-refill":
+		return fmt.Sprintf("%s(%s)", o.K, o.V)
 	case "settype":
 		return fmt.Sprintf("%s.#%d.settype(%s)", t, o.I, o.Ty)
 	case "setlabels":
@@ -94,9 +108,12 @@ func (o Op) String() string {
 	return t + "." + o.K
 }
 
-func mkCase(init int, ops []Op) engine.Case {
+func mkCase(init int, scratch bool, ops []Op) engine.Case {
 	var sb strings.Builder
 	fmt.Fprintf(&sb, "f%d", init)
+	if scratch {
+		sb.WriteString("+scratch")
+	}
 	for _, o := range ops {
 		sb.WriteByte('|')
 		if o.name != "" {
@@ -105,7 +122,7 @@ func mkCase(init int, ops []Op) engine.Case {
 			sb.WriteString(o.String())
 		}
 	}
-	return engine.Case{ID: sb.String(), Data: Data{Init: init, Ops: append([]Op(nil), ops...)}}
+	return engine.Case{ID: sb.String(), Data: Data{Init: init, Ops: append([]Op(nil), ops...), Scratch: scratch}}
 }
 
 // ---------------------------------------------------------------------------
@@ -164,8 +181,16 @@ func buildAlphabets() (quick, thorough []Op) {
 		Op{K: "setraw", N: "a", V: "7"}, Op{K: "setraw", N: "b", V: "7"},
 		Op{K: "copyraw", N: "c", N2: "a"},
 		Op{K: "setv", N: "a", V: "t"},
+		// caller-side: the Tokens value with this id, handed to an earlier
+		// setraw of the history, is changed in place by the caller: element 0
+		// is overwritten with another token / the slice is truncated and
+		// refilled (s = append(s[:0], tok)); three-token and one-token values
+		Op{K: "caller-overwrite", V: "x.y"}, Op{K: "caller-overwrite", V: "7"},
+		Op{K: "caller-refill", V: "x.y"}, Op{K: "caller-refill", V: "1+2"},
 	)
 	add(root, false,
+		Op{K: "caller-overwrite", V: "1+2"}, Op{K: "caller-refill", V: "7"},
+		Op{K: "caller-overwrite", V: "null"}, Op{K: "caller-refill", V: `"q"`},
 		Op{K: "setraw", N: "a", V: "1+2"}, Op{K: "setraw", N: "c", V: "x.y"},
 		Op{K: "setraw", N: "c", V: "7"}, Op{K: "setraw", N: "a", V: "null"}, Op{K: "setraw", N: "b", V: "null"},
 		Op{K: "setraw", N: "a", V: `"q"`}, Op{K: "setraw", N: "b", V: `"q"`},
@@ -233,6 +258,12 @@ func prepare(m *refwriter.File, op Op) prep {
 	}
 	p := prep{ok: true, body: body, chain: chain}
 	switch op.K {
+	case "caller-overwrite", "caller-refill":
+		// offered once the caller has handed that Tokens value to the writer
+		// (before that, changing it is the same as making a different value)
+		if len(m.Caller[op.V]) == 0 {
+			return prep{}
+		}
 	case "setv", "setraw", "settrav":
 		p.appends = body.Attr(op.N) == nil
 	case "copyraw", "copyroot":
@@ -304,8 +335,17 @@ func mutate(m *refwriter.File, p prep, op Op) result {
 	switch op.K {
 	case "setv", "setraw", "settrav":
 		text, tag := exprOf(op)
+		if op.K == "setraw" {
+			// the attribute gets the tokens the caller's value holds now
+			text = strings.Join(m.CallerSlice(op.V, rawTexts(op.V)), "")
+		}
 		p.body.SetAttr(op.N, text, tag)
 		refwriter.Touch(p.chain)
+	case "caller-overwrite":
+		// only the caller's own value changes; no attribute does
+		m.Caller[op.V][0] = overwriteText
+	case "caller-refill":
+		m.Caller[op.V] = []string{refillText}
 	case "copyraw", "copyroot":
 		// the target gets the expression the source has now; the source is
 		// only read and the two are unrelated afterwards
@@ -393,7 +433,13 @@ func gen(tier string, emit func(engine.Case) bool) {
 			var rec func(m *refwriter.File, n int) bool
 			rec = func(m *refwriter.File, n int) bool {
 				if n == 0 {
-					return emit(mkCase(i, ops))
+					if !emit(mkCase(i, false, ops)) {
+						return false
+					}
+					if scratchVariant(ops) {
+						return emit(mkCase(i, true, ops))
+					}
+					return true
 				}
 				for _, op := range candidates {
 					if !prepare(m, op).ok {
@@ -420,15 +466,55 @@ func gen(tier string, emit func(engine.Case) bool) {
 	}
 }
 
+// scratchBuffer names the caller's scratch buffer an operation builds its
+// slice argument in ("" if it passes no slice with elements): Tokens for
+// SetAttributeRaw, []string for block labels, hcl.Traversal for
+// SetAttributeTraversal. (AppendUnstructuredTokens is not among them: it has
+// no documentation at all, so who owns its argument afterwards is not stated.)
+func scratchBuffer(op Op) string {
+	switch op.K {
+	case "setraw", "copyraw", "copyroot":
+		return "tokens"
+	case "settrav":
+		return "traversal"
+	case "newblk", "appblk", "setlabels":
+		if len(op.L) > 0 {
+			return "labels"
+		}
+	}
+	return ""
+}
+
+// scratchVariant says whether the scratch-buffer variant of a history is part
+// of the space: every history of length <= 2 with at least one slice argument,
+// and every longer history in which at least two operations draw on the same
+// scratch buffer (in all other histories the buffer is never reused; what the
+// scrubbing after a call does is visible right after the first such call).
+func scratchVariant(ops []Op) bool {
+	n := map[string]int{}
+	for _, o := range ops {
+		if b := scratchBuffer(o); b != "" {
+			n[b]++
+			if n[b] >= 2 || len(ops) <= 2 {
+				return true
+			}
+		}
+	}
+	return false
+}
+
 func shrinkHistory(c engine.Case) []engine.Case {
 	d := c.Data.(Data)
 	var out []engine.Case
+	if d.Scratch {
+		out = append(out, mkCase(d.Init, false, d.Ops))
+	}
 	for i := range d.Ops {
 		ops := append(append([]Op(nil), d.Ops[:i]...), d.Ops[i+1:]...)
-		out = append(out, mkCase(d.Init, ops))
+		out = append(out, mkCase(d.Init, d.Scratch, ops))
 	}
 	if d.Init != 0 {
-		out = append(out, mkCase(0, d.Ops))
+		out = append(out, mkCase(0, d.Scratch, d.Ops))
 	}
 	return out
 }
@@ -442,9 +528,12 @@ func main() {
 		Technique: "explicit-state exploration of all bounded operation histories on the real hclwrite objects, compared after every step with a map/list reference model",
 		Rule: fmt.Sprintf("all sequences of <= 3 operations over a core alphabet of %d edit operations (quick) / all sequences of <= 3 operations over the full alphabet of %d operations plus all sequences of 4 operations over the core alphabet (thorough) "+
 			"(SetAttributeValue/Raw/Traversal, SetAttributeRaw with the tokens of another attribute's expression (same body / root body), RenameAttribute, RemoveAttribute, AppendNewBlock, AppendBlock of a new / pre-populated / previously removed block, RemoveBlock of block #i or of a foreign block, "+
-			"Block.SetType, Block.SetLabels, AppendNewline, AppendUnstructuredTokens; names a,b,c; values 1,true,\"s\",list; raw tokens x.y, 1+2, 7, null, \"q\"; labels [],[l],[l,m]; every Tokens value is made once per history and passed again to every operation with the same raw id, so attributes share *Token objects) "+
+			"Block.SetType, Block.SetLabels, AppendNewline, AppendUnstructuredTokens; names a,b,c; values 1,true,\"s\",list; raw tokens x.y, 1+2, 7, null, \"q\"; labels [],[l],[l,m]; every Tokens value is made once per history and passed again to every operation with the same raw id, so attributes share *Token objects; "+
+			"caller-side steps caller-overwrite(id) / caller-refill(id): element 0 of the caller's Tokens value id is overwritten with another token / the value is truncated and refilled with one other token, offered once that value has been handed to a SetAttributeRaw, a later SetAttributeRaw with the id passes the value as it is then) "+
 			"on the root body, the bodies of root blocks #0 and #1 and the first body nested in #0, from each of %d initial files (empty, generated via the API, parsed files with lead/line comments, blank lines, nested labelled block, one-line block, missing final newline, "+
 			"items with a #/'//' line comment directly followed by comment lines at three depths). "+
+			"Every history of length <= 2 with a slice argument, and every longer history in which at least two operations pass the same kind of slice argument (Tokens of SetAttributeRaw; labels of AppendNewBlock/NewBlock/SetLabels; traversal of SetAttributeTraversal), is additionally run in its scratch-buffer variant (+scratch): the caller builds each such argument in one reused buffer per kind (buf = append(buf[:0], ...), BuildTokens(buf[:0])) and overwrites all its elements with placeholders as soon as the call has returned. "+
+			"The model (the writer owns what it was given at the time of the call) is the same for both variants. "+
 			"An operation is offered only where its target (and source attribute) exists in the model. No state merging: every history is replayed from scratch on a fresh file. "+
 			"The complete oracle (parses; items = model; untouched items keep their text; per body, every comment of the initial file not attached to a removed item is still there, in order) judges the final state of every history (the space is prefix-closed, so that is every reachable state); intermediate steps are checked for panics, documented results and accessor agreement. "+
 			"Distinct = distinct (final model state, final serialised bytes).", len(alphabetQuick), len(alphabetThorough), len(initialFiles)),
